@@ -227,6 +227,8 @@ pub enum Call {
     ShouldLogRequest,
     SetRemoteAddr,
     AddProxy,
+    /// a string that is no address / range: ignored with a warning, the object stays usable
+    AddProxyRejected,
     CreateLogInJson,
     BufferDuplicate,
     BufferClone,
@@ -241,6 +243,7 @@ pub enum Call {
 pub const CALLS: &[Call] = &[
     Call::RequestCreate(0),
     Call::RequestCreate(1),
+    Call::RequestCreate(2),
     Call::RequestFromStr,
     Call::RequestJsonDeserialize,
     Call::ActionJsonDeserialize(0),
@@ -261,11 +264,13 @@ pub const CALLS: &[Call] = &[
     Call::HeaderFilterFilter(0),
     Call::HeaderFilterFilter(1),
     Call::HeaderFilterFilter(2),
+    Call::HeaderFilterFilter(3),
     Call::BodyFilterFilter,
     Call::BodyFilterFilterNull,
     Call::ShouldLogRequest,
     Call::SetRemoteAddr,
     Call::AddProxy,
+    Call::AddProxyRejected,
     Call::CreateLogInJson,
     Call::BufferDuplicate,
     Call::BufferClone,
@@ -376,7 +381,7 @@ impl World {
             BodyFilterFilter => !self.filter.is_null() && self.buffer.is_some(),
             BodyFilterFilterNull | BufferDuplicate | BufferClone | BufferDrop => self.buffer.is_some(),
             SetRemoteAddr | CreateLogInJson => !self.request.is_null(),
-            AddProxy => !self.proxies.is_null(),
+            AddProxy | AddProxyRejected => !self.proxies.is_null(),
             BodyFilterDrop | BodyFilterClose => !self.filter.is_null(),
             GetApiVersion => true,
         }
@@ -394,8 +399,11 @@ impl World {
                 let host = OwnedC::new("h.example");
                 let scheme = OwnedC::new("https");
                 let method = OwnedC::new("POST");
+                let long_names: Vec<String> = (0..130).map(|i| format!("X-Long-{i}")).collect();
                 let h = if k == 0 {
                     OwnedHeaders::new(&[(Some("X-Forwarded-For"), Some("10.0.0.1, 10.0.0.2")), (Some("User-Agent"), Some("ua"))])
+                } else if k == 2 {
+                    OwnedHeaders::new(&long_names.iter().map(|n| (Some(n.as_str()), Some("v"))).collect::<Vec<_>>())
                 } else {
                     OwnedHeaders::new(&[])
                 };
@@ -404,7 +412,7 @@ impl World {
                     self.mismatch("request_create-null", "request_create returned NULL".into());
                 } else {
                     let r = &*self.request;
-                    if r.host.as_deref() != Some("h.example") || r.path_and_query_skipped.original != "/p?b=2&a=1&utm_source=x" || r.headers.len() != if k == 0 { 2 } else { 0 } {
+                    if r.host.as_deref() != Some("h.example") || r.path_and_query_skipped.original != "/p?b=2&a=1&utm_source=x" || r.headers.len() != if k == 0 { 2 } else if k == 2 { 130 } else { 0 } {
                         self.mismatch("request_create-content", format!("{r:?}"));
                     }
                 }
@@ -515,6 +523,22 @@ impl World {
                     self.mismatch("get_status_code-differs-from-native", format!("{got} vs {want}"));
                 }
             }
+            HeaderFilterFilter(3) => {
+                // a long list (130 entries): every node comes back
+                let names: Vec<String> = (0..130).map(|i| format!("X-Long-{i}")).collect();
+                let entries: Vec<(Option<&str>, Option<&str>)> = names.iter().map(|n| (Some(n.as_str()), Some("v"))).collect();
+                let h = OwnedHeaders::new(&entries);
+                let out = redirectionio_action_header_filter_filter(self.action, h.ptr(), 200, false);
+                let mut got: Vec<(String, String)> = if out == h.ptr() { entries.iter().map(|(n, v)| (n.unwrap().to_string(), v.unwrap().to_string())).collect() } else { take_header_list(out) };
+                let native_in: Vec<Header> = names.iter().map(|n| Header { name: n.clone(), value: "v".into() }).collect();
+                let mut want: Vec<(String, String)> = self.native_action.as_mut().map(|a| a.filter_headers(native_in, 200, false, None)).unwrap_or_default().into_iter()
+                    .map(|h| (if h.name.contains('\0') { "<NULL>".to_string() } else { h.name }, if h.value.contains('\0') { "<NULL>".to_string() } else { h.value })).collect();
+                got.sort();
+                want.sort();
+                if got != want {
+                    self.mismatch("header_filter_filter-differs-from-native", format!("list of 130 headers: {} entries back, native gives {}", got.len(), want.len()));
+                }
+            }
             HeaderFilterFilter(2) => {
                 // a caller-built list with entries the library cannot decode (NULL name, NULL value, ISO-8859-1 bytes) BETWEEN
                 // valid ones: the undecodable entries are skipped, every other header is kept
@@ -609,6 +633,10 @@ impl World {
             }
             AddProxy => {
                 let p = OwnedC::new("192.168.0.0/16");
+                redirectionio_trusted_proxies_add_proxy(self.proxies, p.ptr());
+            }
+            AddProxyRejected => {
+                let p = OwnedC::new("not-an-address/99");
                 redirectionio_trusted_proxies_add_proxy(self.proxies, p.ptr());
             }
             CreateLogInJson => {
@@ -852,7 +880,7 @@ fn enabled_after(prefix: &[Call]) -> Vec<Call> {
             ActionDrop => s.a.is_some(),
             BodyFilterFilter => s.f && s.b,
             BodyFilterFilterNull | BufferDuplicate | BufferClone | BufferDrop => s.b,
-            AddProxy => s.t,
+            AddProxy | AddProxyRejected => s.t,
             BodyFilterDrop | BodyFilterClose => s.f,
             GetApiVersion => prefix.is_empty(),
         })
